@@ -216,6 +216,20 @@ def demoTx : Tx :=
   { ops := [.lockFee 10 100 false, .take 12 20 1, .mint 1 7 2, .bput 1 2, .btake 1 3 3, .burn 3, .put 13 1],
     fin := { required := 60, royalties := [], rewardsVault := 11, toProposer := 15, toValidators := 15, toBurn := 30 } }
 
+/-- a FAILING transaction on the demo state: fee locked on XRD vault 10, a take, then the bucket is
+left dangling (the transaction fails); the executable model reverts: resource 1 untouched, XRD down
+by exactly the burnt fee share, and the lock hypothesis of `tx_conserves_failure` holds -/
+def demoFailTx : Tx :=
+  { ops := [.lockFee 10 100 false, .take 12 20 1],
+    fin := { required := 60, royalties := [], rewardsVault := 11, toProposer := 15, toValidators := 15, toBurn := 30 } }
+
+example : (match commitTx demo demoFailTx with
+    | .ok (s', ok) => (ok, vsum s' 1 - vsum demo 1, vsum s' 0 - vsum demo 0, s'.burned 0)
+    | .error _ => (true, 0, 0, 0)) = (false, 0, -30, 30) := by decide
+
+example : ∀ l ∈ (runOps (beginTx demo) demoFailTx.ops).1.locks,
+    l.vault ∈ demo.vaults ∧ demo.vres l.vault = some XRD := by decide
+
 example : (match commitTx demo demoTx with
     | .ok (s', ok) => (ok, vsum s' 1, s'.supply 1, s'.minted 1, s'.burned 1, vsum s' 0, s'.burned 0)
     | .error _ => (false, 0, 0, 0, 0, 0, 0)) = (true, 74, 74, 7, 3, 975, 30) := by decide
